@@ -45,6 +45,7 @@ def ops_for(cfg):
         O['connect-hang'] = (['valid'], ['hang'])
     O['close'] = ('close', None)
     O['NEWLOOP'] = ('newloop', None)
+    O['NEWLOOP-OPEN'] = ('newloop-open', None)
     O['idle'] = ('idle', 2 * cfg['T'])
     return O
 
@@ -86,6 +87,9 @@ def run_history(cfg, hist, final=True):
         elif a == 'newloop':
             s.newloop()
             last_ok_fd = None
+        elif a == 'newloop-open':
+            s.newloop_open()
+            last_ok_fd = None
         elif a == 'idle':
             s.idle(b)
             if n_open(s) > 1:
@@ -113,6 +117,7 @@ def run_history(cfg, hist, final=True):
             if obs.result[0] == 'hang':
                 vio.append(('terminates', obs.result[1]))
         if a in ('close', 'newloop', 'idle') or i == len(hist) - 1:
+            s.service_parked()
             k = leaked_sockets(s)
             if k > 0:
                 vio.append(('no-socket-leak', f'{k} socket(s) open without an open transport after {name}'))
@@ -127,6 +132,7 @@ def run_history(cfg, hist, final=True):
         if not cfg['ka'] and n_open(s) != 0:
             vio.append(('keepalive-off:closed-after-request', 'after the final healthy request'))
         s.close()
+        s.service_parked()
         if n_open(s) != 0:
             vio.append(('closed-after-close()', f'{n_open(s)} open after final close()'))
         k = leaked_sockets(s)
